@@ -1,6 +1,8 @@
 ---------------------------- MODULE EcLayoutTrace ----------------------------
 (* Judge for C06.  One execution = one data file: reset (block sizes, dat size n, content key),
-   encode, then reads / rebuilds / decode / mount + needle reads in any order.  large = small = 0 in the reset line
+   encode, then reads / rebuilds / decode / mount + needle reads in any order; or ("vol": true in the
+   reset line) the life cycle of one real volume: vwrite / vdelete, vencode, vecread / vecdelete /
+   rebuild / vfold, vdecode, vload, vread / vwrite ...  large = small = 0 in the reset line
    means the production block sizes (1 GiB / 1 MiB, beyond TLC's integers): layer A needs no
    block arithmetic, only Dat. *)
 EXTENDS EcLayout, TraceKit
@@ -10,6 +12,7 @@ TraceInit == Init /\ KitInit
 TraceReset == /\ IsReset
               /\ L' = Ev.large /\ S' = Ev.small /\ n' = Ev.n /\ ka' = Ev.ka /\ kb' = Ev.kb
               /\ sh' = <<>> /\ dh' = "" /\ ex' = <<>> /\ UNCHANGED lc
+              /\ vol' = IF Ev.vol THEN VFresh ELSE NoVol
 TraceSkip == SkipStep /\ UNCHANGED vars
 TEncode == /\ IsEvent("encode") /\ Strict
            /\ Encode(Ev.err, Ev.hashes, Ev.dat)
@@ -30,6 +33,26 @@ TDecode == /\ IsEvent("decode")
                  /\ sh # <<>> /\ Ev.err = "" /\ UNCHANGED vars
 TMount == IsEvent("mount") /\ Strict /\ Mount(Ev.needles, Ev.err)
 TNeedle == IsEvent("needle") /\ Strict /\ Needle(Ev.id, Ev.err, Ev.off, Ev.asize, Ev.got)
-TraceNext == TraceReset \/ TraceSkip \/ TEncode \/ TReads \/ TRebuild \/ TDecode \/ TMount \/ TNeedle
+(* the life cycle of a real volume ("vol": true in the reset line), layer A at the bottom of EcLayout.tla *)
+TVWrite == IsEvent("vwrite") /\ Strict /\ VWrite(Ev.k, Ev.d, Ev.res)
+TVDelete == IsEvent("vdelete") /\ Strict /\ VDelete(Ev.k, Ev.res)
+TVEncode == IsEvent("vencode") /\ Strict /\ VEncode(Ev.err, Ev.xerr, Ev.n, Ev.hashes, Ev.dat)
+TVEcRead == IsEvent("vecread") /\ Strict /\ VEcRead(Ev.k, Ev.st, Ev.d)
+TVEcDelete == IsEvent("vecdelete") /\ Strict /\ VEcDelete(Ev.k, Ev.err)
+TVFold == IsEvent("vfold") /\ Strict /\ VFold(Ev.stale, Ev.err)
+(* C06-decode-no-live (fixed in the tree, kept for trees without the fix): FindDatFileSize started from 0, so
+   a volume without a live needle was decoded into a 0-byte .dat without super block, which the loader
+   refuses - the volume is gone, nothing after it can be judged *)
+TVDecode == /\ IsEvent("vdecode")
+            /\ \/ Strict /\ VDecode(Ev.stale, Ev.ferr, Ev.fsize, Ev.derr, Ev.ierr, Ev.dsize, Ev.hash, Ev.phash)
+               \/ /\ Deviate("C06-decode-no-live")
+                  /\ vol.ph = "ec" /\ VLive(vol.blob) = {} /\ Ev.ferr = "" /\ Ev.fsize = 0 /\ n > 0
+                  /\ vol' = [vol EXCEPT !.ph = "void"] /\ UNCHANGED VOther
+TVLoad == IsEvent("vload") /\ Strict /\ VLoad(Ev.res, Ev.ro)
+TVRead == IsEvent("vread") /\ Strict /\ VRead(Ev.k, Ev.st, Ev.d)
+VKinds == {"vwrite", "vdelete", "vencode", "vecread", "vecdelete", "vfold", "vdecode", "vload", "vread", "rebuild"}
+TVVoid == l <= N /\ Ev.ev \in VKinds /\ IsEvent(Ev.ev) /\ Strict /\ VVoid
+TraceNext == \/ TraceReset \/ TraceSkip \/ TEncode \/ TReads \/ TRebuild \/ TDecode \/ TMount \/ TNeedle
+             \/ TVWrite \/ TVDelete \/ TVEncode \/ TVEcRead \/ TVEcDelete \/ TVFold \/ TVDecode \/ TVLoad \/ TVRead \/ TVVoid
 TraceSpec == TraceInit /\ [][TraceNext]_tvars
 =============================================================================
